@@ -468,6 +468,7 @@ func TestVerif_C07_ExpiryEndToEnd(t *testing.T) {
 			}
 		}
 		nt := false
+		fetches := cFetches(run)
 		fetched := map[string]map[int64]bool{}    // key -> PXATs reported by fetches
 		fetchedAt := map[string]map[int64]int64{}
 		fetchedFrom := map[string]map[int64]int64{} // key -> PXAT -> virtual time of the call that reported it
@@ -484,7 +485,15 @@ func TestVerif_C07_ExpiryEndToEnd(t *testing.T) {
 				// (only entries that an earlier call populated: a reply fetched inside this very call is also reported as served
 				// from the cache - duplicates of a batch, the elements of a fetched MGET - and with a server PTTL of 0 it expires
 				// in the millisecond it arrives)
-				if r.PXAT <= startMs && fetched[r.Key][r.PXAT] && fetchedFrom[r.Key][r.PXAT] < r.StartUs {
+				// (... and a fetch inside this call can report the very expiry an earlier call reported: PTTL 0 twice within one
+				// millisecond; a hit is stale only if the server saw no fetch of the key during this call)
+				refetched := false
+				for _, f := range fetches[r.Key] {
+					if f.RecvUs >= r.StartUs && f.RecvUs <= r.EndUs {
+						refetched = true
+					}
+				}
+				if r.PXAT <= startMs && fetched[r.Key][r.PXAT] && fetchedFrom[r.Key][r.PXAT] < r.StartUs && !refetched {
 					c.Fail(rt, "C07.no-hit-after-expiry", fmt.Sprintf("%s was served as a hit at +%dms although its entry expires at +%dms", where, startMs-run.EpochMs, r.PXAT-run.EpochMs), plan)
 				}
 				if r.PXAT-startMs <= 2 {
